@@ -107,31 +107,31 @@ NOFAC = dict(facilities=False, components=False)
 FULL = dict()
 
 PLANS = {
-    "C01": dict(cases=step_cases(["deps", "abs", "deps2", "edge"], NOFAC),
+    "C01": dict(cases=step_cases(["deps", "abs", "deps2", "edge", "half"], NOFAC),
                 l1=l1(dict(family="rand", rand=NOFAC, invariants=['Inv_C01'], properties=['Prop_C01'], tier=1),
                       dict(family="deps", invariants=["Inv_C01"], properties=["Prop_C01"]),
                       dict(family="abs", invariants=["Inv_C01"], properties=["Prop_C01"]),
                       dict(family="deps2", invariants=["Inv_C01"], properties=["Prop_C01"]))),
-    "C02": dict(cases=both(unit2_cases(), step_cases(["deps", "alloc", "abs", "pairs", "edge"], FULL)),
+    "C02": dict(cases=both(unit2_cases(), step_cases(["deps", "alloc", "abs", "pairs", "edge", "half"], FULL)),
                 l1=l1(dict(family="pairs", invariants=["Inv_C02"], properties=["Prop_C02"]),
                       dict(family="rand", rand=FLAT, invariants=['Inv_C02'], properties=['Prop_C02'], tier=1),
                       dict(family="deps", invariants=["Inv_C02"], properties=["Prop_C02"]),
                       dict(family="alloc", invariants=["Inv_C02"], properties=["Prop_C02"]))),
-    "C03": dict(cases=both(unit2_cases(), step_cases(["alloc", "place", "conveyor", "pairs", "edge"], FULL)),
+    "C03": dict(cases=both(unit2_cases(), step_cases(["alloc", "place", "conveyor", "pairs", "edge", "mainwp"], FULL)),
                 l1=l1(dict(family="pairs", invariants=["Inv_C03"], properties=["Prop_C03"]),
                       dict(family="rand", rand=FLAT, invariants=['Inv_C03'], properties=['Prop_C03'], tier=1),
                       dict(family="alloc", invariants=["Inv_C03"], properties=["Prop_C03"]),
                       dict(family="place", invariants=["Inv_C03"], properties=["Prop_C03"]))),
-    "C04": dict(cases=step_cases(["alloc", "place", "conveyor", "pairs", "fixed"], FULL),
+    "C04": dict(cases=step_cases(["alloc", "place", "conveyor", "pairs", "fixed", "mainwp"], FULL),
                 l1=l1(dict(family="pairs", invariants=["Inv_C04"], properties=["Prop_C04"]),
                       dict(family="rand", rand=FLAT, invariants=['Inv_C04'], properties=['Prop_C04'], tier=1),
                       dict(family="alloc", invariants=["Inv_C04"], properties=["Prop_C04"]),
                       dict(family="place", invariants=["Inv_C04"], properties=["Prop_C04"]))),
-    "C05": dict(cases=both(step_cases(["deps", "abs", "place", "edge"], FULL),
+    "C05": dict(cases=both(step_cases(["deps", "abs", "place", "edge", "half", "mainwp"], FULL),
                            lambda tier, seed: _sim(families.sample(families.export_family("deps4", 1), 300 if tier == "quick" else 5000, seed))),
                 l1=l1(dict(family="deps", invariants=["Inv_C05"], properties=["Live_C05"]),
                       dict(family="abs", invariants=["Inv_C05"]))),
-    "C06": dict(cases=step_cases(["deps", "alloc", "pairs", "deps2", "edge", "fixed"], FULL),
+    "C06": dict(cases=step_cases(["deps", "alloc", "pairs", "deps2", "edge", "fixed", "mainwp", "half"], FULL),
                 l1=l1(dict(family="rand", rand=FLAT, invariants=['Inv_C06'], properties=['Prop_C06'], tier=1),
                       dict(family="deps", invariants=["Inv_C06"], properties=["Prop_C06"]),
                       dict(family="alloc", invariants=["Inv_C06"], properties=["Prop_C06"]))),
@@ -139,15 +139,15 @@ PLANS = {
                 l1=l1(dict(family="rand", rand=FLAT, invariants=['Inv_C07'], properties=[], tier=1),
                       dict(family="alloc", invariants=["Inv_C07"]),
                       dict(family="abs", invariants=["Inv_C07"]))),
-    "C08": dict(cases=step_cases(["deps", "place", "dag", "watch", "edge"], FULL),
+    "C08": dict(cases=step_cases(["deps", "place", "dag", "watch", "edge", "half"], FULL),
                 l1=l1(dict(family="abs", invariants=["Inv_C08"]))),
     "C10": dict(cases=step_cases(["abs", "pairs"], FULL),
                 l1=l1(dict(family="abs", invariants=["Inv_C10", "Inv_C10H"], properties=["Prop_C10"]))),
-    "C11": dict(cases=both(sort_cases(), step_cases(["alloc", "edge", "pairs", "fixed"], FULL, nq=400, rq=300)),
+    "C11": dict(cases=both(sort_cases(), step_cases(["alloc", "edge", "pairs", "fixed", "mainwp"], FULL, nq=400, rq=300)),
                 l1=l1(dict(family="alloc", properties=["Prop_C11"]), dict(family="pairs", properties=["Prop_C11"]))),
     "C12": dict(cases=step_cases(["pert"], dict(facilities=False, components=False, kinds=["FS"])),
                 l1=l1(dict(family="pert", invariants=["Inv_C12"]))),
-    "C13": dict(cases=step_cases(["place", "conveyor"], FULL),
+    "C13": dict(cases=step_cases(["place", "conveyor", "mainwp"], FULL),
                 l1=l1(dict(family="placeflat", invariants=["Inv_C13"], properties=["Prop_C13"]),
                       dict(family="conveyor", invariants=["Inv_C13"], properties=["Prop_C13"]))),
     "C14": dict(cases=step_cases(["place", "deps", "dag", "watch"], FULL),
@@ -359,7 +359,7 @@ def c15_cases(tier, seed):
 def c17_cases(tier, seed):
     rng = _random.Random(seed + 17)
     out = []
-    pool = _pool(tier, seed, ["deps", "placeflat", "conveyor", "abs", "pairs"], 25, 300, dict(nested=False, multi_task_comp=False), 60, 600)
+    pool = _pool(tier, seed, ["deps", "placeflat", "conveyor", "abs", "pairs", "due", "half"], 25, 300, dict(nested=False, multi_task_comp=False), 60, 600)
     for cfg in pool:
         ops = [{"op": "simulate", "light": True}]
         combos = [(d, r) for d in (False, True) for r in (False, True)]
@@ -772,7 +772,11 @@ _more_l1("C03", dict(family="conveyor", invariants=["Inv_C03"], properties=["Pro
 _more_l1("C04", dict(family="conveyor", invariants=["Inv_C04"], properties=["Prop_C04"]),
          dict(family="fixed", invariants=["Inv_C04"], properties=["Prop_C04"], quick=True))
 _more_l1("C06", dict(family="fixed", invariants=["Inv_C06"], properties=["Prop_C06"], quick=True))
-_more_l1("C11", dict(family="fixed", properties=["Prop_C11"], quick=True))
+_more_l1("C11", dict(family="fixed", properties=["Prop_C11"], quick=True), dict(family="mainwp", properties=["Prop_C11"], quick=True))
+_more_l1("C02", dict(family="half", invariants=["Inv_C02"], properties=["Prop_C02"], quick=True))
+_more_l1("C01", dict(family="half", invariants=["Inv_C01"], properties=["Prop_C01"], quick=True))
+_more_l1("C04", dict(family="mainwp", invariants=["Inv_C04"], properties=["Prop_C04"]))
+_more_l1("C13", dict(family="mainwp", invariants=["Inv_C13"], properties=["Prop_C13"], quick=True))
 _more_l1("C05", dict(family="alloc", invariants=["Inv_C05"], properties=["Live_C05"], tier=1),
          dict(family="deps2", invariants=["Inv_C05"], properties=["Live_C05"]),
          dict(family="deps4", invariants=["Inv_C05"], tier=1))
